@@ -717,7 +717,8 @@ func dbQueryAll(q *pop.Query, models interface{}) error {
 	out := models.(*relationTuples)
 	n := 0
 	for i := range db.rows {
-		if dq.hasLim && !verifConcretizeBool(verifLess(n, dq.limit)) {
+		// (a negative LIMIT means "no limit" in SQLite; MySQL and PostgreSQL reject it)
+		if dq.hasLim && !verifConcretizeBool(verifOr(verifLess(dq.limit, 0), verifLess(n, dq.limit))) {
 			break
 		}
 		if verifConcretizeBool(db.builderMatch(dq, i)) {
